@@ -43,8 +43,21 @@ Cache path, whole runs, all configurations (`Sched/CacheRef.lean`):
   same entry for every lookup a consumer can still make.  Hypotheses: initial cache content in key order
   (`InitSorted`; its complement is the known finding about initial data of several shifted connections) and
   `MonoAct` on the replies (complement of the known finding about non-monotone output times).
-NOT proved: the same refinement for the push path (`cache=False`: persistent memory + timed buffer against the
-history; events on flat configurations are covered by `no_late_arrival` / `taken_at_first_due_step`) — decided by the
+Push path, whole runs, flat configurations (`Sched/PushRef.lean`; all connections when `cache=False`):
+* `push_buffer_is_pending_history` : in every reachable state, the values of a pushed connection waiting in the
+  destination's timed input buffer are exactly the values the source has produced on it that were not yet due at the
+  destination's last step, in production order — nothing lost, duplicated, invented or attributed to another source
+* `push_persistent_is_latest` : for a persistent connection the remembered value is the last produced value that was due
+  at the last step, the declared initial value if there is none
+* `begin_push_refines_spec` : hence the step request for time `c` carries, under the connection's key, the last value
+  produced on the connection whose due time (output time + shift) is at or before `c` (persistent), resp. the last value that
+  became due since the previous step (event) — each produced value leaves the buffer exactly once, with the destination's
+  first step at or after its due time.
+  Hypotheses: those of `no_late_arrival` (flat configuration, evaluated by the driver's `wf`/`wfx`), no cached connection
+  into the destination, the connection's input key is used by no other connection into the destination (`hkey`), no
+  asynchronous `set_data` in the run (C16 covers it) and reported output times that do not go back (`ReachP`; executable
+  form `runPB`).
+NOT proved: the same for grouped configurations (where the known finding C03-subtier-blind lives) — decided by the
 specification monitor on implementation traces (clean class) and by the correspondence; the known findings D12, D14,
 event-with-initial-data and non-monotone output times are exactly where the refinement fails (see known_findings.json).
 -/
@@ -54,6 +67,8 @@ import MosaikProofs.Sched.Buffer
 import MosaikProofs.Sched.Prune
 import MosaikProofs.Sched.BufferSrc
 import MosaikProofs.Sched.CacheRef
+import MosaikProofs.Sched.PushRef
+import MosaikProofs.Sched.WFLive
 import MosaikModel.WF
 namespace Mosaik.C03
 open Mosaik
@@ -314,6 +329,71 @@ theorem cache_agrees_with_history {cfg : Cfg} (hw : WFCfg cfg) (hc : cfg.useCach
     (hr : ReachM cfg s) (hnf : s.failed = none) {q : Sid} (hq : q < cfg.n) (τ : Int) (hτ : minLast cfg s - maxShift cfg q ≤ τ) :
     getOutputFor (s.sims q).outputs τ = getOutputFor (histOf cfg q s.log) τ :=
   (reachM_cacheRef hw hc hi hr hnf).look q hq τ hτ
+
+/-! ### push path: whole runs refine the output history (flat configurations) -/
+
+/-- the buffered values of a pushed connection are exactly the produced values not yet due at the destination's last step,
+in production order -/
+theorem push_buffer_is_pending_history {cfg : Cfg} (h1 : cfg.wfB = true) (h2 : cfg.shapeB = true) (h3 : cfg.flatB cfg.zeroRank = true)
+    (h4 : cfg.pushB = true) {src q : Sid} {pe : Port × Sid × TI × Port} (hq : q < cfg.n)
+    (hkey : (cfg.sim src).push.filter (hits q (keyOf src pe) src) = [pe]) (hpull : (cfg.sim q).pulled = [])
+    {s : State} (hr : ReachP cfg s) (hnf : s.failed = none) :
+    keyView (keyOf src pe) (s.sims q).buffer = (chist src pe s.log).filter (fun x => after (lastBegun (s.sims q)) x.1) :=
+  (reachP_pushRef (wfB_sound h1) (shapeB_sound h2) (flatB_sound h3) (pushB_sound h4) hq hkey hpull hr hnf).buf
+
+/-- the remembered value of a persistent pushed connection is the last produced value due at the destination's last step -/
+theorem push_persistent_is_latest {cfg : Cfg} (h1 : cfg.wfB = true) (h2 : cfg.shapeB = true) (h3 : cfg.flatB cfg.zeroRank = true)
+    (h4 : cfg.pushB = true) {src q : Sid} {pe : Port × Sid × TI × Port} (hq : q < cfg.n)
+    (hkey : (cfg.sim src).push.filter (hits q (keyOf src pe) src) = [pe]) (hpull : (cfg.sim q).pulled = [])
+    {s : State} (hr : ReachP cfg s) (hnf : s.failed = none) (d0 : Val)
+    (hd0 : InputData.get? (cfg.sim q).persistent0 (keyOf src pe) = some d0) :
+    InputData.get? (s.sims q).persistent (keyOf src pe) =
+      some (lastVal ((chist src pe s.log).filter (fun x => !after (lastBegun (s.sims q)) x.1)) d0) :=
+  (reachP_pushRef (wfB_sound h1) (shapeB_sound h2) (flatB_sound h3) (pushB_sound h4) hq hkey hpull hr hnf).pers d0 hd0
+
+/-- what the step request carries under the connection's key (statement: `Sched/PushRef.lean`) -/
+theorem begin_push_refines_spec {cfg : Cfg} (h1 : cfg.wfB = true) (h2 : cfg.shapeB = true) (h3 : cfg.flatB cfg.zeroRank = true)
+    (h4 : cfg.pushB = true) {src q : Sid} {pe : Port × Sid × TI × Port} (hq : q < cfg.n)
+    (hkey : (cfg.sim src).push.filter (hits q (keyOf src pe) src) = [pe]) (hpull : (cfg.sim q).pulled = [])
+    {s s' : State} (hr : ReachP cfg s) (hnf0 : s.failed = none) (h : step cfg s (.deps q) = some s') (hnf : s'.failed = none) :
+    ∃ c inp m, s'.log = .begin q c inp m :: s.log ∧
+      InputData.get? inp (keyOf src pe) =
+        (match ((chist src pe s.log).filter (fun x => after (lastBegun (s.sims q)) x.1 && decide (x.1 ≤ TT.time c))).getLast? with
+          | some x => some x.2
+          | none => InputData.get? (s.sims q).persistent (keyOf src pe)) ∧
+      ∀ d0, InputData.get? (cfg.sim q).persistent0 (keyOf src pe) = some d0 →
+        InputData.get? inp (keyOf src pe) = some (lastVal ((chist src pe s.log).filter (fun x => decide (x.1 ≤ TT.time c))) d0) :=
+  Mosaik.begin_push_refines_spec (wfB_sound h1) (shapeB_sound h2) (flatB_sound h3) (pushB_sound h4) hq hkey hpull hr hnf0 h hnf
+
+/-! non-vacuity: a producer A pushing a persistent value to a consumer B (`cache=False`).  The configuration meets the
+executable hypotheses, the run is a `ReachP` run, B's next step is enabled, and the spec value for its time is A's output 7
+(the declared initial value 99 is superseded). -/
+def pushedCfg : Cfg :=
+  { sims := [ { ty := .timeBased, next0 := [[0]], outReq := [(0, 0)], succs := [(1, ⟨1, 1, [0]⟩)],
+                push := [((0, 0), 1, ⟨1, 1, [0]⟩, (0, 0))] },
+              { ty := .timeBased, next0 := [[0]], inputDelays := [(0, ⟨1, 1, [0]⟩)], persistent0 := [(⟨0, 0, 0, 0⟩, some 99)] } ],
+    until_ := 2, lazy_ := false, useCache := false }
+
+def pushedRun : List Action :=
+  [.start 0, .start 1, .deps 0, .stepReply 0 (.int 1), .dataReply 0 { data := [((0, 0), some 7)] }]
+
+example : pushedCfg.wfB = true ∧ pushedCfg.shapeB = true ∧ pushedCfg.flatB pushedCfg.zeroRank = true ∧ pushedCfg.pushB = true ∧
+    (pushedCfg.sim 0).push.filter (hits 1 (keyOf 0 ((0, 0), 1, ⟨1, 1, [0]⟩, (0, 0))) 0) = [((0, 0), 1, ⟨1, 1, [0]⟩, (0, 0))] ∧
+    (pushedCfg.sim 1).pulled = [] ∧
+    InputData.get? (pushedCfg.sim 1).persistent0 (keyOf 0 ((0, 0), 1, ⟨1, 1, [0]⟩, (0, 0))) = some (some 99) := by decide
+
+example : ∃ s, ReachP pushedCfg s ∧ s.failed = none ∧ (step pushedCfg s (.deps 1)).isSome = true ∧
+    lastVal ((chist 0 ((0, 0), 1, ⟨1, 1, [0]⟩, (0, 0)) s.log).filter (fun x => decide (x.1 ≤ 0))) (some 99) = some 7 := by
+  have hex : (exec pushedCfg (initState pushedCfg) pushedRun).isSome = true := by decide
+  obtain ⟨s, hs⟩ := Option.isSome_iff_exists.mp hex
+  refine ⟨s, exec_reachP pushedRun ReachP.init hs (by decide), ?_⟩
+  have hall : ((exec pushedCfg (initState pushedCfg) pushedRun).map fun s =>
+      s.failed.isNone && (step pushedCfg s (.deps 1)).isSome &&
+        (lastVal ((chist 0 ((0, 0), 1, ⟨1, 1, [0]⟩, (0, 0)) s.log).filter (fun x => decide (x.1 ≤ 0))) (some 99) == some 7)) = some true := by
+    decide
+  rw [hs] at hall
+  simp only [Option.map_some, Option.some.injEq, Bool.and_eq_true, beq_iff_eq, Option.isNone_iff_eq_none] at hall
+  exact ⟨hall.1.1, hall.1.2, hall.2⟩
 
 /-! non-vacuity: a producer A and a consumer B over one cached connection (`cache=True`).  The configuration meets the
 hypotheses, the run below is a `ReachM` run, and the step of B it enables pulls A's output 7 — the history's value. -/
